@@ -100,6 +100,12 @@ class AdminEnv:
                 if k == "no_exec" and self.platform != "ledger":
                     continue
                 argv.append(f)
+        # (a third of the command lines carry -v / --verbose: it only adds output)
+        import zlib
+        self._cli_runs = getattr(self, "_cli_runs", 0) + 1
+        if "-v" not in argv and zlib.crc32(("%s|%d|%d" % (
+                operation, len(argv), self._cli_runs)).encode()) % 3 == 0:
+            argv.append("--verbose" if self._cli_runs % 2 else "-v")
         saved = sys.argv
 
         def fn(_):
